@@ -149,7 +149,7 @@ def rule_nest(ctx):
     c = repo.func('sc3.base._oscinterface:OscInterface._check_subtime')
     t, sub = c.params[0], c.params[1]
     b = [norm(s) for s in _strip_doc(c.node.body)]
-    ok = b == [f'if {t} is None: return', f"if {sub} is None or {t} > {sub}: raise ValueError('nested bundle time must be >= enclosing bundle time')"]
+    ok = b == [f'if {t} is None or {t} < 0.0: return', f"if {sub} is None or {t} > {sub}: raise ValueError('nested bundle time must be >= enclosing bundle time')"]
     ctx.ob('C07.nest', f'{c.fq}', ok, f'sub-time rule must refuse None or earlier children of a timed parent; found {b}', c.node, c.module)
     p = repo.func('sc3.base._oscinterface:OscScore._process_bndl_time')
     src = full(p.node)
@@ -157,6 +157,15 @@ def rule_nest(ctx):
         'elif not isinstance(element[0], str): raise ValueError' in src and \
         f'bndl[0] = self._get_logical_time({p.params[1]}, bndl[0])' in src
     ctx.ob('C07.nest', f'{p.fq}', ok, 'score times are processed with the same element classification as the encoder', p.node, p.module)
+    # every place where the encoder stamps a bundle has a counterpart in the list processor: directly nested bundles
+    # (_build_bundle recursion) and bundles embedded in a message as completion blobs (_build_msg -> _build_bundle)
+    bm = repo.func('sc3.base._oscinterface:OscInterface._build_msg')
+    enc_embedded = any(U.method_name(c) == '_build_bundle' for c in U.calls(bm.node))
+    lst_embedded = any(isinstance(x, ast.If) and 'str' in norm(x.test) and any(U.method_name(c) in ('_process_bndl_time', '_process_msg_time')
+                       for c in U.calls(ast.Module(body=x.body, type_ignores=[]))) for x in walk_local(p.node))
+    ctx.ob('C07.nest', f'{p.fq}:embedded-bundles', not enc_embedded or lst_embedded,
+           'the encoder stamps a bundle embedded in a message (completion bundle) with send instant + latency; the list form leaves its '
+           'relative latency untouched, so score.list and score.raw disagree for it', p.node, p.module)
     # the list handed in by the caller is copied before any element or time is replaced (a list sent twice is stamped twice
     # relative to its own send instants, not relative to the previous result)
     bp = p.params[2]
@@ -297,6 +306,8 @@ def run(ctx):
 
 
 MUTANTS = [
+    dict(rule='C07.nest', name='(fix reverted) a negative parent latency is compared with the child', file='sc3/base/_oscinterface.py',
+         old="        if time is None or time < 0.0:\n            return  # Immediately, nothing can be before.", new="        if time is None:\n            return"),
     dict(rule='C07.nest', name='(fix reverted) score rewrites the nested bundles of the caller', file='sc3/base/_oscinterface.py',
          edits=[('sc3/base/_oscinterface.py', "        bndl = bndl[:]  # Don't change the list of the caller.\n", ""),
                 ('sc3/base/_oscinterface.py', "                    f'OSC messages or bundles: {element}')\n        bndl[0] = self._get_logical_time", "                    f'OSC messages or bundles: {element}')\n        bndl = bndl[:]\n        bndl[0] = self._get_logical_time")]),
